@@ -4,7 +4,11 @@ import torch
 import os
 import logging
 import sys
+import inspect
 from pathlib import Path
+from typing import Any
+
+from pulser.backend.observable import Observable
 
 unix_like = os.name != "nt"
 if unix_like:
@@ -48,6 +52,21 @@ def init_logging(log_level: int, log_file: Path | None) -> logging.Logger:
         logger.removeHandler(h)
     logger.addHandler(handler)
     return logger
+
+
+def observable_aggregation_kwargs(method_name: str) -> dict[str, Any]:
+    """
+    Recent pulser-core versions require every Observable to declare
+    how its values are combined by `Results.aggregate`.
+    Returns the keyword arguments to forward to `Observable.__init__`,
+    or nothing when the installed pulser-core predates that argument.
+    """
+    if "default_aggregation_method" not in inspect.signature(Observable).parameters:
+        return {}
+
+    from pulser.backend.observable import AggregationMethod
+
+    return {"default_aggregation_method": AggregationMethod[method_name]}
 
 
 def deallocate_tensor(t: torch.Tensor) -> None:
